@@ -84,7 +84,25 @@ fn run_exe(exe: &Path, args: &[&Path], stdout_to: &Path) -> String
 fn run_case(case: &str, dir: &Path) -> String
 {
 	let t: Vec<&str> = case.split_whitespace().collect();
-	let bin = parse_hex_bytes(t[1]);
+	// G <n hex> <kind>: a large binary described, not spelled out (well formed by construction): kind `run` = n x `SUBS R1,R1,1`
+	// then BX LR; kind `call` = BL to the code behind n NOPs, BX LR, and there MOVS R0,1; BX LR.  The result states
+	// whether the re-assembled image equals the binary (the comparison is made here, the texts would be megabytes).
+	let big = t[0] == "G";
+	let bin = if !big { parse_hex_bytes(t[1]) } else
+	{
+		let n = usize::from_str_radix(t[1], 16).unwrap();
+		let mut v: Vec<u8> = Vec::with_capacity(2 * n + 16);
+		if t[2] == "run" { for _ in 0..n { v.extend_from_slice(&0x3901u16.to_le_bytes()); } v.extend_from_slice(&0x4770u16.to_le_bytes()); }
+		else
+		{
+			let bl = Instruction::Bl{off: (2 * n + 2) as i32};
+			v.extend_from_slice(&enc(&bl));
+			for _ in 0..n { v.extend_from_slice(&0xBF00u16.to_le_bytes()); }
+			v.extend_from_slice(&0x4770u16.to_le_bytes());
+			v.extend_from_slice(&0x2001u16.to_le_bytes()); v.extend_from_slice(&0x4770u16.to_le_bytes());
+		}
+		v
+	};
 	std::fs::create_dir_all(dir).unwrap();
 	let code = dir.join("code.bin"); let asm = dir.join("listing.asm"); let uf2 = dir.join("out.uf2"); let log = dir.join("trias.out");
 	let _ = std::fs::remove_file(&uf2);
@@ -107,6 +125,11 @@ fn run_case(case: &str, dir: &Path) -> String
 	}
 	for f in [&code, &asm, &uf2, &log] { let _ = std::fs::remove_file(f); }
 	// a killed run may have written an arbitrarily long partial listing: not reported
+	if big
+	{
+		let lines = listing.iter().filter(|&&b| b == b'\n').count();
+		return format!("tridas={} trias={} image_eq={} len={:x} listing_lines={:x}", tridas, trias, if image == hex_bytes(&bin) { 1 } else { 0 }, bin.len(), lines);
+	}
 	let shown = if tridas == "timeout" { "-".to_string() } else { hex_bytes(&listing) };
 	format!("listing={} | tridas={} trias={} image@0x20000000={}", shown, tridas, trias, image)
 }
@@ -380,26 +403,40 @@ fn main()
 	let mut sh = Shard{k: 0, shard, n: nshards};
 	let mut rng = Rng::new(seed);
 	let p = pools();
-	let mut emit = |b: &[u8], out: &mut Out| { if sh.mine() { let c = format!("B {}", hex_bytes(b)); let r = run_case(&c, &dir); out.line(&c, &r); } };
+	let mut emit_c = |c: String, out: &mut Out| { if sh.mine() { let r = run_case(&c, &dir); out.line(&c, &r); } };
+	macro_rules! emit { ($b:expr, $o:expr) => { emit_c(format!("B {}", hex_bytes($b)), $o) } }
+	// binaries larger than any buffer size one might think of (64 KiB, the 264 KiB of RP2040 SRAM, 1 MiB)
+	for (n, kind) in [(0x8000usize, "run"), (0x21000, "run"), (0x21100, "call"), (0x80010, "run")] { if thorough || n < 0x80000 { emit_c(format!("G {:x} {}", n, kind), &mut out); } }
 	// fixed corpus; the witness of the known finding F24 (addsub_imm3_alias) first
 	// (…, then instructions that are NOT terminal followed by code reachable only by fall-through: POP without PC,
 	// PUSH, a conditional branch, BLX, SVC, WFI; seeded change C20-3 needs the first one; before them two binaries whose function is placed BEFORE its only
 	// caller and is reachable only through a backward BL / B<cond>)
 	let corpus: [&str; 24] = ["241c7047", "01e000bf7047fff7fcff7047", "01e000bf7047fcd07047", "01bc00bf7047", "f0bc01b47047", "00d100bf7047", "884700bf7047", "05df00bf7047", "30bf00bf7047", "7047", "00bf7047", "fee7", "fff7feff7047", "00bd", "00be", "00de", "f0f700a0",
 		"00d000bf7047", "00f001f8704700bf7047", "8746", "8744", "bff34f8f80f30088eff305807047", "00bf", "fdd17047"];
-	for c in corpus { emit(&parse_hex_bytes(c), &mut out); }
+	for c in corpus { emit!(&parse_hex_bytes(c), &mut out); }
 	// the two witnesses of the repaired listing defects (F19 header, F6 MOVS / SEV)
-	emit(&[0x01, 0x20, 0x40, 0xBF, 0x70, 0x47], &mut out);
+	emit!(&[0x01, 0x20, 0x40, 0xBF, 0x70, 0x47], &mut out);
 	// audit: inputs no generated case reaches — the empty file (header line only), a single byte, and a binary far longer
 	// than the 400-byte limit of the generators (600 NOPs, a BL back to the first instruction, BX LR: 1206 bytes)
-	emit(&[], &mut out);
-	emit(&[0x00], &mut out);
+	emit!(&[], &mut out);
+	emit!(&[0x00], &mut out);
 	{
 		let mut long: Vec<u8> = Vec::new();
 		for _ in 0..600 { long.extend(enc(&Instruction::Nop)); }
 		long.extend(enc(&Instruction::Bl{off: -1204}));
 		long.extend(enc(&Instruction::Bx{off: reg(14)}));
-		emit(&long, &mut out);
+		emit!(&long, &mut out);
+	}
+	// every decodable 16-bit pattern that falls through, once: straight-line binaries of 120 instructions + BX LR
+	{
+		let all: Vec<u16> = p.plain.iter().flatten().copied().collect();
+		for chunk in all.chunks(120)
+		{
+			let mut b: Vec<u8> = Vec::with_capacity(2 * chunk.len() + 2);
+			for h in chunk { b.extend_from_slice(&h.to_le_bytes()); }
+			b.extend_from_slice(&0x4770u16.to_le_bytes());
+			emit!(&b, &mut out);
+		}
 	}
 	let n = if thorough { 50_000 } else { 1_000 };
 	for _ in 0..n
@@ -410,8 +447,8 @@ fn main()
 			1..=10 => gen_malformed(&p, &mut rng),
 			_ => gen_wf(&p, &mut rng, false).1,
 		};
-		emit(&b, &mut out);
+		emit!(&b, &mut out);
 	}
-	drop(emit);
+	drop(emit_c);
 	let _ = std::fs::remove_dir_all(&dir);
 }
